@@ -351,6 +351,35 @@ static void do_swap (const char *hex)
   dbus_message_unref (m); free (b);
 }
 
+/* arr1 <hex> : dbus_message_iter_get_element_count and, for fixed-size element types, dbus_message_iter_get_fixed_array on the
+ * first argument of the message (which must be an array): prints `count=<n> fixed=<n> <hex>` (or fixed=-) */
+static void do_arr1 (const char *hex)
+{
+  int n; unsigned char *b = unhex (hex, &n); DBusError e; DBusMessage *m; DBusMessageIter it, sub;
+  dbus_error_init (&e);
+  m = dbus_message_demarshal ((const char *) b, n, &e);
+  free (b);
+  if (m == NULL) { printf ("corrupt\n"); dbus_error_free (&e); return; }
+  if (!dbus_message_iter_init (m, &it) || dbus_message_iter_get_arg_type (&it) != DBUS_TYPE_ARRAY) { printf ("noarray\n"); dbus_message_unref (m); return; }
+  printf ("count=%d", dbus_message_iter_get_element_count (&it));
+  {
+    int et = dbus_message_iter_get_element_type (&it);
+    if (dbus_type_is_fixed (et) && et != DBUS_TYPE_UNIX_FD)
+      {
+        const unsigned char *data = NULL; int cnt = 0; int sz;
+        dbus_message_iter_recurse (&it, &sub);
+        dbus_message_iter_get_fixed_array (&sub, &data, &cnt);
+        sz = (et == DBUS_TYPE_BYTE) ? 1 : (et == DBUS_TYPE_INT16 || et == DBUS_TYPE_UINT16) ? 2 :
+             (et == DBUS_TYPE_INT64 || et == DBUS_TYPE_UINT64 || et == DBUS_TYPE_DOUBLE) ? 8 : 4;
+        printf (" fixed=%d ", cnt);
+        if (cnt > 0) puthex (data, cnt * sz); else putchar ('-');
+      }
+    else printf (" fixed=-");
+  }
+  printf ("\n");
+  dbus_message_unref (m);
+}
+
 /* edit <hex> <op>... : load one message, apply header edits in order, print the marshalled form after each */
 static void do_edit (const char *hex)
 {
@@ -394,6 +423,7 @@ int main (void)
       else if (!strcmp (cmd, "loadf")) do_loadf (a1);
       else if (!strcmp (cmd, "demarshal")) do_demarshal (a1);
       else if (!strcmp (cmd, "swap")) do_swap (a1);
+      else if (!strcmp (cmd, "arr1")) do_arr1 (a1);
       else if (!strcmp (cmd, "edit")) do_edit (a1);
       else printf ("?unknown-command\n");
     }
